@@ -107,7 +107,7 @@ def run_case(ctx, rng, index, casedir):
     nrec = rng.randint(8, 30)
     maxlen = 12 if ctx.tier == "quick" else rng.choice([12, 30, 60])
     walks = ggaf.make_walks(g, rng, nrec, maxlen=maxlen)
-    recs = [ggaf.make_record(g, rng, w, f"r{index}_{i}", offsets="any", tags="safe") for i, w in enumerate(walks)]
+    recs = [ggaf.make_record(g, rng, w, f"r{index}_{i}", offsets="any", tags=rng.choice(["safe", "grammar_plain"])) for i, w in enumerate(walks)]
     for w in walks:
         classify_walk(g, w, sit)
     mode = rng.choice(["plain", "plain", "bgzf", "pysam"])
